@@ -304,6 +304,8 @@ def run_query(op, kind, rhs, dtype):
         extra = {}
         if kind.startswith("matmul_"):
             X = ob.tt(rhs, dtype)
+            if kind == "matmul_batched" and X.dim() >= 2:
+                X = X.mT.contiguous().mT          # same values in a NON-contiguous (column-major) layout
             r1, cls1 = densify(op @ X)
             r2, _ = densify(op.matmul(X))
             if r1.shape != r2.shape or not torch.equal(r1, r2):
